@@ -269,6 +269,12 @@ enum Any {
     Upd(String),
     Resc(String),
     Stop,
+    /// a command whose reply carries a binary part (the chunk is summarised by a checksum)
+    Art(String),
+}
+
+fn data_sum(d: &[u8]) -> u64 {
+    d.iter().fold(d.len() as u64, |a, x| (a * 31 + *x as u64) % 4294967296)
 }
 
 impl Any {
@@ -276,6 +282,7 @@ impl Any {
         match spec.as_bytes().first() {
             Some(b'u') => Any::Upd(unhex_str(&spec[1..]).unwrap_or_default()),
             Some(b'r') => Any::Resc(unhex_str(&spec[1..]).unwrap_or_default()),
+            Some(b'a') => Any::Art(unhex_str(&spec[1..]).unwrap_or_default()),
             _ => Any::Stop,
         }
     }
@@ -288,6 +295,7 @@ impl TypedCommand for Any {
             Any::Upd(u) => Update::new().uri(u).command(),
             Any::Resc(u) => Rescan::new().uri(u).command(),
             Any::Stop => Stop.command(),
+            Any::Art(u) => mpd_client::commands::AlbumArt::new(u).command(),
         }
     }
     fn response(self, frame: Frame) -> Result<Self::Response, TypedResponseError> {
@@ -295,6 +303,7 @@ impl TypedCommand for Any {
             Any::Upd(u) => Update::new().uri(&u).response(frame).map(Some),
             Any::Resc(u) => Rescan::new().uri(&u).response(frame).map(Some),
             Any::Stop => Stop.response(frame).map(|_| None),
+            Any::Art(u) => mpd_client::commands::AlbumArt::new(&u).response(frame).map(|a| a.map(|a| data_sum(&a.data))),
         }
     }
 }
